@@ -46,7 +46,7 @@ type c01Edit struct {
 
 // applyEdits performs the edits on the message and on the model; it reports false when an edit does not
 // fit the message (the case is skipped) or nothing would be left to render.
-func applyEdits(b *gen.Built, edits []c01Edit) bool {
+func applyEdits(b *gen.Built, edits []c01Edit, msgCharset string) bool {
 	kindRange := func(kind string) (int, int) {
 		lo, hi := -1, -1
 		for i, l := range b.Leaves {
@@ -158,6 +158,13 @@ func applyEdits(b *gen.Built, edits []c01Edit) bool {
 			case "part-charset":
 				parts[pi].SetCharset(mail.Charset(e.Arg))
 				l.Charset = e.Arg
+				if e.Arg == "" {
+					// a part without a charset of its own is labelled with the message's
+					l.Charset = msgCharset
+					if l.Charset == "" {
+						l.Charset = "UTF-8"
+					}
+				}
 			case "part-content":
 				parts[pi].SetContent(e.Arg)
 				l.Content = []byte(e.Arg)
@@ -206,7 +213,7 @@ func c01Run(c c01Case) []*core.Violation {
 		}
 	}
 	if len(c.Edits) > 0 {
-		if !applyEdits(b, c.Edits) {
+		if !applyEdits(b, c.Edits, c.Spec.Charset) {
 			rec.Skip()
 			return nil
 		}
@@ -374,7 +381,7 @@ func c01GenEdits(t *rapid.T, spec *gen.MsgSpec) []c01Edit {
 			e.Arg = rapid.SampledFrom([]string{"text/plain", "text/html", "text/x-verif", "application/json", "text/calendar; method=REQUEST", "text/plain; format=flowed"}).Draw(t, "editctype")
 		case "part-charset":
 			e.Idx = rapid.IntRange(0, np-1).Draw(t, "editpart")
-			e.Arg = rapid.SampledFrom([]string{"UTF-8", "ISO-8859-1", "US-ASCII", "ISO-8859-15"}).Draw(t, "editcharset")
+			e.Arg = rapid.SampledFrom([]string{"UTF-8", "ISO-8859-1", "US-ASCII", "ISO-8859-15", ""}).Draw(t, "editcharset")
 		case "part-content", "part-writefunc":
 			e.Idx = rapid.IntRange(0, np-1).Draw(t, "editpart")
 			e.Arg = rapid.SampledFrom([]string{"", "replaced\r\n", "=3D replaced caf\u00e9 \r\n.\r\n--x\r\nlast", strings.Repeat("r", 100) + "\r\n"}).Draw(t, "editcontent")
